@@ -7,6 +7,7 @@ import WebrtcVerif.Model.NegNeeded
           tr:<v|a>:<sr|so|ro|in>  AddTransceiverFromKind   dc      CreateDataChannel
           co / ca   CreateOffer / CreateAnswer             slo / sla  SetLocalDescription(own last offer / answer)
           sro / sra SetRemoteDescription(peer's last offer / answer)      cl  Close
+          slp / srp the same with the last answer applied as a provisional answer (type pranswer)
   out:  per op `<res> <A> <B>` with res 0 nil / 1 error / 2 error after the state was committed / - skipped and
         `<sig><I|B><n|-><c|->:<count>` per side, then `fa <state…> fb <state…>` (signaling state inside each
         handler invocation).  A blocked side prints `?` for [[NegotiationNeeded]] and the count of its last
@@ -48,11 +49,14 @@ def parseOp (tok : String) : Option (Side × WApi) :=
   | [s, "sla"] => do let s ← parseSide s; pure (s, .setLocalAnswer)
   | [s, "sro"] => do let s ← parseSide s; pure (s, .setRemoteOffer)
   | [s, "sra"] => do let s ← parseSide s; pure (s, .setRemoteAnswer)
+  | [s, "slp"] => do let s ← parseSide s; pure (s, .setLocalPranswer)
+  | [s, "srp"] => do let s ← parseSide s; pure (s, .setRemotePranswer)
   | [s, "cl"] => do let s ← parseSide s; pure (s, .close)
   | _ => none
 
 def sigLetter : Sig → String
-  | .stable => "s" | .haveLocalOffer => "l" | .haveRemoteOffer => "r" | .closed => "c"
+  | .stable => "s" | .haveLocalOffer => "l" | .haveRemoteOffer => "r"
+  | .haveLocalPranswer => "p" | .haveRemotePranswer => "q" | .closed => "c"
 
 def idle (pc : PC) : Bool := pc.queue.isEmpty && pc.running.isNone
 
@@ -165,7 +169,9 @@ def walk (me : String) (anyDc : Bool) (j : JSt) (op res : String) (o : Obs) : JS
   let change := mine && okRes &&
     ((verb == "at" && !j.usedTracks.contains (argOf op 0)) || (verb == "tr") || (verb == "dc" && !anyDc))
   -- … unless this side re-describes itself or removes the track again before it is next stable and drained
-  let cancel := mine && (verb == "co" || verb == "ca" || verb == "rt")
+  -- (SetRemoteDescription(pranswer) takes the offer path: its m-section loop re-adjusts transceiver directions,
+  -- which can undo the effect of an AddTrack that re-used a transceiver)
+  let cancel := mine && (verb == "co" || verb == "ca" || verb == "rt" || verb == "srp")
   let pending := (j.pending && !cancel) || change
   let used := if mine && verb == "at" then argOf op 0 :: j.usedTracks else j.usedTracks
   let touched := j.touched || (mine && committed && (verb == "at" || verb == "tr" || verb == "dc" || verb == "sla" || verb == "sra"))
